@@ -24,28 +24,44 @@ def sh(cmd, cwd=None, env=None, timeout=3600):
 
 
 def main():
-    wt, name, pid = sys.argv[1], sys.argv[2], sys.argv[3]
-    checks = [pid] + sys.argv[4:]
+    """round-2 form:  seed_eval.py --patch <worktree> <X> <seed-name> <property-id> [more checks]
+    (the worktree is clean and holds patchX.diff / demoX.py)"""
+    patch_mode = sys.argv[1] == "--patch"
+    if patch_mode:
+        wt, X, name, pid = sys.argv[2], sys.argv[3], sys.argv[4], sys.argv[5]
+        checks = [pid] + sys.argv[6:]
+    else:
+        wt, name, pid = sys.argv[1], sys.argv[2], sys.argv[3]
+        checks = [pid] + sys.argv[4:]
     out = os.path.join(VERIF, "seeded", name)
     os.makedirs(out, exist_ok=True)
+    demo = "demo.py"
+    if patch_mode:
+        demo = "demo%s.py" % X
+        sh("git checkout -- .", cwd=wt)
+        rc, o = sh("git apply patch%s.diff" % X, cwd=wt)
+        if rc != 0:
+            print("patch%s.diff does not apply in the worktree: %s" % (X, o))
+            return 2
     rc, diff = sh("git diff -- blackbird_python/blackbird src blackbird_cpp ':!blackbird_python/blackbird/tests'", cwd=wt)
     if not diff.strip():
         print("no diff in", wt)
         return 2
     open(os.path.join(out, "patch.diff"), "w").write(diff)
-    for f in ("demo.py", "NOTE.md"):
+    for f in (demo, "NOTE.md"):
         if os.path.exists(os.path.join(wt, f)):
-            shutil.copy(os.path.join(wt, f), os.path.join(out, f))
+            shutil.copy(os.path.join(wt, f), os.path.join(out, "demo.py" if f == demo else f))
     env = dict(os.environ, PYTHONPATH=os.path.join(wt, "blackbird_python"))
     meta = {"seed": name, "property": pid, "worktree": wt}
-    rc, o = sh("python3 /tmp/wt/tools/baseline.py %s" % wt)
+    rc, o = sh("python3 %s/tools/baseline.py %s" % (os.path.dirname(wt.rstrip("/")), wt))
     meta["baseline_tests_pass_with_change"] = (rc == 0)
     meta["baseline_output"] = o.strip().split("\n")[0]
-    rc1, o1 = sh("/venv/bin/python demo.py", cwd=wt, env=env, timeout=900)
+    rc1, o1 = sh("/venv/bin/python %s" % demo, cwd=wt, env=env, timeout=900)
     # (no `git stash`: the stash is shared between all worktrees of a repository)
     sh("git apply -R %s" % os.path.join(out, "patch.diff"), cwd=wt)
-    rc0, o0 = sh("/venv/bin/python demo.py", cwd=wt, env=env, timeout=900)
-    sh("git apply %s" % os.path.join(out, "patch.diff"), cwd=wt)
+    rc0, o0 = sh("/venv/bin/python %s" % demo, cwd=wt, env=env, timeout=900)
+    if not patch_mode:
+        sh("git apply %s" % os.path.join(out, "patch.diff"), cwd=wt)
     meta["demo_exit_with_change"] = rc1
     meta["demo_exit_without_change"] = rc0
     meta["demo_output_with_change"] = o1[-600:]
